@@ -163,6 +163,7 @@ type Server struct {
 	cbMu    sync.RWMutex
 	gateFn  func(*ReqInfo)
 	afterFn func(*ReqInfo)
+	tagFn   func() string
 	faultFn func(*ReqInfo) *Fault
 	cut     atomic.Bool // crash cut: every mc request fails with a transport error
 
@@ -224,7 +225,24 @@ func (s *Server) RESTConfig() *rest.Config {
 }
 
 func (s *Server) SetTag(t string) { s.tag.Store(t) }
-func (s *Server) Tag() string      { return s.tag.Load().(string) }
+
+// SetTagFunc makes the bracket label a function evaluated per request (worker mode, where the
+// key being synced is only known once the real worker has taken it from the queue).
+func (s *Server) SetTagFunc(fn func() string) {
+	s.cbMu.Lock()
+	s.tagFn = fn
+	s.cbMu.Unlock()
+}
+
+func (s *Server) Tag() string {
+	s.cbMu.RLock()
+	fn := s.tagFn
+	s.cbMu.RUnlock()
+	if fn != nil {
+		return fn()
+	}
+	return s.tag.Load().(string)
+}
 
 func (s *Server) SetGate(fn func(*ReqInfo)) {
 	s.cbMu.Lock()
